@@ -230,6 +230,13 @@ def _time_allow_key(ctx: Ctx, f: FunctionInfo) -> str:
     owner = ctx.res.enclosing_class(top)
     if owner is not None and ctx.prog.is_subclass(owner, "geneticengine.evaluation.recorder.SearchRecorder") and owner.name == "CSVSearchRecorder":
         return "geneticengine.evaluation.recorder:CSVSearchRecorder.__init__"
+    rec = ctx.prog.classes.get("geneticengine.evaluation.recorder.CSVSearchRecorder")
+    if owner is None and rec is not None and top.module is rec.module:
+        # a module-level helper of the recorder module that only the recorder module itself calls (e.g. the default column table)
+        callers = [g for g in ctx.prog.functions.values() for c in walk_local(g.node, include_nested=True)
+                   if isinstance(c, ast.Call) and call_name(c) == top.name]
+        if callers and all(g.module is rec.module for g in callers):
+            return "geneticengine.evaluation.recorder:CSVSearchRecorder.__init__"
     return base
 
 
